@@ -244,6 +244,8 @@ def _class_of(kind):
 
 
 SIZE_THRESHOLDS = {"quick": [129, 257, 385, 513], "thorough": [33, 65, 129, 201, 257, 385, 513, 1025]}
+# the Gram matrix of many curves costs O(n^2) Python-level integrations: fewer "tall" sizes in the quick tier
+SIZE_THRESHOLDS_TALL = {"quick": [129, 385], "thorough": [33, 65, 129, 201, 257, 385, 513]}
 SIZED_METHODS = ["mean", "center", "covariance", "inner_product", "norm", "normalize", "standardize", "rescale", "noise_variance"]
 
 
@@ -336,18 +338,40 @@ def call_method(kind, seed, method, oi, subject=None, poison=None):
 # generation
 # --------------------------------------------------------------------------
 
+def _heavy(c):
+    return "@" in c.get("est", "") or (":" in c.get("subject", "") and c.get("method") in ("inner_product", "covariance"))
+
+
 def gen_cases(rng: Rng, tier):
+    """Heavy (size-threshold) cases are spread over the stream, one per block of light cases, and come
+    first, so that the worker pool starts them early and never runs two of them in one chunk."""
+    cases = list(_gen_cases(rng, tier))
+    def size_of(c):
+        txt = c["est"].split("@")[1] if c.get("est") else c["subject"].split(":")[1]
+        return max(int(x) for x in txt.split("x"))
+
+    heavy = sorted([c for c in cases if _heavy(c)], key=lambda c: -size_of(c))
+    light = [c for c in cases if not _heavy(c)]
+    block = max(1, len(light) // max(len(heavy), 1))
+    out, li = [], 0
+    for h in heavy:
+        out.append(h)
+        out += light[li: li + block]
+        li += block
+    out += light[li:]
+    return out
+
+
+def _gen_cases(rng: Rng, tier):
     calls = enumerate_calls()
     seeds = [rng.randint(0, 10**6) for _ in range(2 if tier == "quick" else 6)]
     for (kind, m, oi) in calls:
         for s in seeds[: (1 if tier == "quick" else 3)]:
             yield dict(kind="single", subject=kind, seed=s, method=m, opt=oi)
     # size thresholds: a wide (many sampling points) and a tall (many curves) dataset per size, default options
-    for S in SIZE_THRESHOLDS[tier]:
-        for kind in (f"dense1d:3x{S}", f"dense1d:{S}x5"):
+    for S in sorted(set(SIZE_THRESHOLDS[tier]) | set(SIZE_THRESHOLDS_TALL[tier])):
+        for kind in ([f"dense1d:3x{S}"] if S in SIZE_THRESHOLDS[tier] else []) + ([f"dense1d:{S}x5"] if S in SIZE_THRESHOLDS_TALL[tier] else []):
             for m in SIZED_METHODS:
-                if m == "covariance" and S > 600:
-                    continue
                 yield dict(kind="single", subject=kind, seed=seeds[0], method=m, opt=0)
     # pairs of consecutive calls
     by_kind = {}
@@ -372,10 +396,11 @@ def gen_estimator_cases(rng: Rng, tier):
     # size thresholds for the fits (eigen-solvers and blocked loops may switch algorithm above a size)
     seed = rng.randint(0, 10**6)
     for S in SIZE_THRESHOLDS[tier]:
-        for est in ("ufpca_cov", "ufpca_inpro", "mfpca_inpro"):
-            if S > 600 and est == "ufpca_cov" and tier == "quick":
-                continue
-            yield dict(kind="est", est=f"{est}@{S}", seed=seed)
+        yield dict(kind="est", est=f"ufpca_cov@{S}", seed=seed)
+    for S in SIZE_THRESHOLDS_TALL[tier]:
+        yield dict(kind="est", est=f"ufpca_inpro@{S}", seed=seed)
+        if tier == "thorough" or S == 385:
+            yield dict(kind="est", est=f"mfpca_inpro@{S}", seed=seed)
 
 
 def search_cases(rng, tier):
@@ -838,8 +863,16 @@ def _est(case):
                         viol.append(_viol("earlier_results_unchanged", entry, f"a repeated {name} changed the result returned earlier by {en}", ["result_mutated"]))
     # (d) whole sequence again on a fresh estimator, and refit of the same estimator
     U.poison("big")
-    e2, res2 = _run_steps(mk, ctx, steps)
+    sized = "@" in est
     e1, res1 = _run_steps(mk, ctx, steps)
+    # a second fresh estimator on the same data (for the size-threshold cases the history above is the first run)
+    e2, res2 = (e, [(n_, r_, None) for (n_, r_, _) in earlier if not n_.startswith("fit (")]) if sized else _run_steps(mk, ctx, steps)
+    if sized:
+        res1 = [x for x in res1 if x[0] != "fit"]
+        first_fit = _nocache(U.deep({k: v for k, v in e.__dict__.items()}, skip_cache=True))
+        d = U.diff_paths(first_fit, _nocache(U.deep({k: v for k, v in e1.__dict__.items()}, skip_cache=True)))
+        if d:
+            viol.append(_viol("repeatable", f"{cls}.fit", f"two fresh estimators fitted on the same data differ at {d[:3]}", ["second_call_differs"]))
     for (n1, r1, x1), (n2, r2, x2) in zip(res1, res2):
         if (x1 is None) != (x2 is None):
             viol.append(_viol("repeatable", f"{cls}.{n1}", "the outcome differs between two identical runs", ["second_call_differs"]))
@@ -885,9 +918,9 @@ def _est(case):
                 viol.append(_viol("repeatable", f"{cls}.fit", f"an estimator refitted on other data differs from a fresh estimator with the same configuration fitted on those data at {d[:3]}", ["refit_differs", "state_leak"]))
         except Exception as ex:  # noqa: BLE001
             viol.append(_viol("repeatable", f"{cls}.fit", f"refit on other data raised {err_class(ex)}: {str(ex)[:80]}", ["refit_differs"]))
-    # (c) read-only inputs
+    # (c) read-only inputs (skipped for the size-threshold cases: cost)
     try:
-        e3, res3 = _run_steps(mk, ctx, steps, readonly=True)
+        e3, res3 = (e1, res1) if sized else _run_steps(mk, ctx, steps, readonly=True)
         for (n1, r1, x1), (n3, r3, x3) in zip(res1, res3):
             if x3 is not None and x1 is None:
                 kindc = "input_written_in_place" if "read-only" in str(x3) else "second_call_differs"
